@@ -354,7 +354,8 @@ AllCalls == UNION { CallSpaceOf[c] : c \in Confs }
 ParamNames == ToSet(NameOrder)
 \* names a behaviour tries to bind: the signature's own, one foreign name, and (for
 \* classes and methods) self
-BindNames(c) == NamedParams(c) \cup {"z"}
+\* ... and the names of the catch-all parameters themselves (`args` of STAR args, `kw` of STARSTAR kw): they are not parameters
+BindNames(c) == NamedParams(c) \cup {"z"} \cup (IF c.va THEN {"args"} ELSE {}) \cup (IF c.vk THEN {"kw"} ELSE {})
 
 
 ------------------------------------------------------------------------------
